@@ -140,6 +140,8 @@ def is_sequence(string):
 
 
 def remove_constructed(string):
+    if not string:
+        raise UnexpectedDER("Empty string does not encode a constructed tag")
     s0 = str_idx_as_int(string, 0)
     if (s0 & 0xE0) != 0xA0:
         raise UnexpectedDER(
@@ -147,6 +149,8 @@ def remove_constructed(string):
         )
     tag = s0 & 0x1F
     length, llen = read_length(string[1:])
+    if length > len(string) - 1 - llen:
+        raise UnexpectedDER("Length longer than the provided buffer")
     body = string[1 + llen : 1 + llen + length]
     rest = string[1 + llen + length :]
     return tag, body, rest
@@ -166,10 +170,14 @@ def remove_sequence(string):
 
 
 def remove_octet_string(string):
+    if not string:
+        raise UnexpectedDER("Empty string does not encode an octet string")
     if string[:1] != b"\x04":
         n = str_idx_as_int(string, 0)
         raise UnexpectedDER("wanted type 'octetstring' (0x04), got 0x%02x" % n)
     length, llen = read_length(string[1:])
+    if length > len(string) - 1 - llen:
+        raise UnexpectedDER("Length longer than the provided buffer")
     body = string[1 + llen : 1 + llen + length]
     rest = string[1 + llen + length :]
     return body, rest
@@ -242,6 +250,8 @@ def remove_integer(string):
 def read_number(string):
     number = 0
     llen = 0
+    if not string:
+        raise UnexpectedDER("Empty string does not encode a number")
     if str_idx_as_int(string, 0) == 0x80:
         raise UnexpectedDER("Non minimal encoding of OID subidentifier")
     # base-128 big endian, with most significant bit set in all but the last
@@ -344,6 +354,8 @@ def remove_bitstring(string, expect_unused=_sentry):
     length, llen = read_length(string[1:])
     if not length:
         raise UnexpectedDER("Invalid length of bit string, can't be 0")
+    if length > len(string) - 1 - llen:
+        raise UnexpectedDER("Length longer than the provided buffer")
     body = string[1 + llen : 1 + llen + length]
     rest = string[1 + llen + length :]
     if expect_unused is not _sentry:
